@@ -6,6 +6,7 @@ import (
 	"sync"
 
 	"github.com/icon-project/goloop/common"
+	"github.com/icon-project/goloop/consensus/fastsync"
 	"github.com/icon-project/goloop/module"
 )
 
@@ -125,4 +126,16 @@ func SimResetVoteSetIDs() {
 	simVSMu.Lock()
 	defer simVSMu.Unlock()
 	simVSIDs = map[*voteSet]uintptr{}
+}
+
+// SimFastSyncMutexesOf returns the mutexes of the fast-sync manager owned by
+// the engine's syncer (nil before Start created it). Must be called at
+// simulator quiescence.
+func SimFastSyncMutexesOf(c module.Consensus) []*common.Mutex {
+	cs := c.(*consensus)
+	s, ok := cs.syncer.(*syncer)
+	if !ok || s == nil || s.fsm == nil {
+		return nil
+	}
+	return fastsync.SimMutexesOf(s.fsm)
 }
